@@ -717,6 +717,25 @@ def late_binding_handlers(repo: Repo, res: CheckResult) -> None:
                                     "outlives the iteration: when it runs, the variables hold the values of the LAST iteration -- every handler "
                                     "built by the loop uses the last wrapped handler (the loader request is answered by composing the dumper "
                                     "function)", getattr(fn, "lineno", 0)))
+        # the same in a comprehension: a lambda in the ELEMENT that reads a comprehension variable is collected by construction
+        # (a generator expression's lambda runs after the generator advanced only if it is kept; lists/sets/dicts always keep it)
+        for comp in [x for x in ast.walk(m.tree) if isinstance(x, (ast.ListComp, ast.SetComp, ast.DictComp, ast.GeneratorExp))]:
+            targets = {t.id for g in comp.generators for t in ast.walk(g.target) if isinstance(t, ast.Name)}
+            elts = [comp.key, comp.value] if isinstance(comp, ast.DictComp) else [comp.elt]
+            for lam in [f for e in elts for f in ast.walk(e) if isinstance(f, ast.Lambda)]:
+                params = set(func_params(lam))
+                defaults = [d for d in (lam.args.defaults + [k for k in lam.args.kw_defaults if k is not None])]
+                free = {x.id for x in ast.walk(lam.body) if isinstance(x, ast.Name) and isinstance(x.ctx, ast.Load)
+                        and x.id in targets and x.id not in params}
+                n += 1
+                res.evaluated(f"late-binding:{m.rel}:{lam.lineno}:comprehension", True)
+                if free:
+                    encl = m.enclosing_function(comp)
+                    res.add(Finding("C09", "BIND.loop-variable-read-late", m.rel, m.qualname(encl) if encl is not None else "<module>",
+                                    f"lambda in a comprehension reads {sorted(free)}",
+                                    f"a lambda collected by a comprehension reads the comprehension variable(s) {sorted(free)} as free "
+                                    "variables: all collected lambdas share ONE cell per variable and see the value of the last "
+                                    "iteration when they run", lam.lineno))
     res.count("BIND.functions-defined-in-loops", n, 0)
     fx = ast.parse("def g(self):\n    out = []\n    for cls, checker, handler in self.p():\n        def h(m, r):\n            return handler(m, r)\n        out.append((cls, checker, h))\n    return out\n")
     loop = next(x for x in ast.walk(fx) if isinstance(x, ast.For))
